@@ -654,6 +654,9 @@ func (fg *FnGen) safety(k string) bool {
 	if k == "nil" {
 		return fg.c.Safety["nil"]
 	}
+	if fg.c.Safety["no-"+k] {
+		return false
+	}
 	return true
 }
 
